@@ -204,6 +204,12 @@ def family_c13(chk):
     core += [('and', ('EW', P[0], P[1]), ('not', ('AW', P[0], P[1]))), ('or', ('AW', W, P[0]), ('and', ('EW', W, P[0]), ('EU', W, P[0]))), ('bind', 'x', None, ('and', ('EW', X, P[0]), ('not', ('AW', X, P[0])))),
              ('iff', ('EW', P[0], P[1]), ('or', ('EU', P[0], P[1]), ('EG', P[0]))),
              ('iff', ('AW', W, P[1]), ('not', ('EU', ('not', P[1]), ('and', ('not', W), ('not', P[1])))))]
+    U4 = ('EU', 'AU', 'EW', 'AW')
+    for o1 in U4:
+        for o2 in U4:
+            if o1 < o2 and {o1, o2} & {'EW', 'AW'}:
+                for l, r in ((P[0], P[1]), (W, P[0])):
+                    core += [('or', (o1, l, r), (o2, l, r)), ('and', (o2, l, r), ('not', (o1, l, r))), ('EX', ('xor', (o1, l, r), (o2, l, r)))]
     rnd = []
     nr = 40 if thorough else 10
     while len(rnd) < nr:
